@@ -16,6 +16,8 @@
  *        get/put it directly; see case_cont.
  *   last <N> <R> <seed>   R rounds: N threads own one reference each of a fresh node (nobody else
  *        does) and release them at the same moment; see case_last.
+ *   iso <N> <iters> <size> <seed>   N threads, NO shared json object: own thread-local double format,
+ *        own trees, serialise / parse / deep-copy / compare / pointer / patch in a loop; see case_iso.
  *   sched <what>   the model driver explores ALL schedules of small configurations with the
  *        regenerated micro-operation programs; the implementation side has no schedule control
  *        and prints the expected "sched ok".
@@ -366,6 +368,152 @@ static void case_last(char *args)
 	       __atomic_load_n(&put1_total, __ATOMIC_SEQ_CST), bad);
 }
 
+/* ------------------------------------------------------------------ iso: disjoint objects, hidden shared state */
+/* N threads; NO json object is shared.  Each thread sets its OWN thread-local double format
+ * (JSON_C_OPTION_THREAD: "%.0f", "%.3g", "%.17g" or unset), builds its own tree (with whole
+ * and fractional doubles) and computes reference texts ALONE (one thread at a time, under a
+ * mutex).  After the barrier all threads loop concurrently over their own objects:
+ * serialising under several flag words, parsing with their own tokener, deep-copying,
+ * comparing, json_pointer get/set and json_patch — every text must equal that thread's
+ * reference.  Whatever TSan reports here is a race on library-internal shared state. */
+#include "json_pointer.h"
+#include "json_patch.h"
+static const char *ISO_FORMATS[] = {"%.0f", "%.3g", "%.17g", NULL, "%.2f", "%.0f"};
+static const int ISO_FLAGS[] = {JSON_C_TO_STRING_PLAIN, JSON_C_TO_STRING_SPACED, JSON_C_TO_STRING_PRETTY,
+                                JSON_C_TO_STRING_PRETTY | JSON_C_TO_STRING_PRETTY_TAB,
+                                JSON_C_TO_STRING_PLAIN | JSON_C_TO_STRING_NOZERO,
+                                JSON_C_TO_STRING_SPACED | JSON_C_TO_STRING_NOSLASHESCAPE};
+#define ISO_NFLAGS 6
+#define ISO_NTEXT (ISO_NFLAGS + 4)
+static int iso_iters, iso_size;
+static unsigned long iso_seed;
+static pthread_mutex_t iso_mu = PTHREAD_MUTEX_INITIALIZER;
+static long iso_diff[MAXT];
+
+static struct json_object *iso_build(unsigned long *x, int *budget, int depth)
+{
+	static const double DV[] = {2.0, -3.0, 0.5, 1e21, 1.25e-7, 100.0, 0.0, 12345678.0, 0.1, 7.0};
+	unsigned r;
+	*x = lcg(*x);
+	r = (unsigned)((*x >> 10) % 8);
+	(*budget)--;
+	if (depth > 4 || *budget <= 0) r = r % 5;
+	if (r < 3) return json_object_new_double(DV[(*x >> 4) % 10] * (double)(1 + (*x >> 20) % 3));
+	if (r == 3) return json_object_new_int64((long long)(*x >> 3) - 100000000LL);
+	if (r == 4) {
+		char b[32];
+		snprintf(b, sizeof b, "s/%lu", *x % 100000);
+		return json_object_new_string(b);
+	}
+	if (r == 5) {
+		struct json_object *a = json_object_new_array();
+		int c = 1 + (int)((*x >> 5) % 4), j;
+		for (j = 0; j < c; j++) json_object_array_add(a, iso_build(x, budget, depth + 1));
+		return a;
+	} else {
+		struct json_object *o = json_object_new_object();
+		int c = 1 + (int)((*x >> 5) % 4), j;
+		for (j = 0; j < c; j++) {
+			char k[32];
+			snprintf(k, sizeof k, "k%d", j);
+			json_object_object_add(o, k, iso_build(x, budget, depth + 1));
+		}
+		return o;
+	}
+}
+
+/* all texts one pass produces from the thread's own tree; out[] entries are strdup'ed */
+static void iso_pass(struct json_object *tree, struct json_object *patch, char **out)
+{
+	int f;
+	struct json_object *copy = NULL, *parsed, *res = NULL;
+	struct json_tokener *tok;
+	struct json_patch_error perr;
+	const char *plain;
+	for (f = 0; f < ISO_NFLAGS; f++)
+		out[f] = strdup(json_object_to_json_string_ext(tree, ISO_FLAGS[f]));
+	/* parse the plain text with an own tokener, print it again */
+	plain = out[0];
+	tok = json_tokener_new();
+	parsed = json_tokener_parse_ex(tok, plain, (int)strlen(plain) + 1);
+	out[ISO_NFLAGS] = strdup(parsed ? json_object_to_json_string_ext(parsed, JSON_C_TO_STRING_PLAIN) : "PARSEFAIL");
+	json_tokener_free(tok);
+	/* deep copy, compare, print the copy */
+	if (json_object_deep_copy(tree, &copy, NULL) != 0 || !json_object_equal(tree, copy))
+		out[ISO_NFLAGS + 1] = strdup("COPYFAIL");
+	else
+		out[ISO_NFLAGS + 1] = strdup(json_object_to_json_string_ext(copy, JSON_C_TO_STRING_SPACED));
+	/* pointer: read a member, overwrite another one in the copy */
+	if (copy && json_pointer_get(copy, "/d/1", &res) == 0 && json_pointer_set(&copy, "/w", json_object_new_double(4.0)) == 0)
+		out[ISO_NFLAGS + 2] = strdup(json_object_to_json_string_ext(res, JSON_C_TO_STRING_PLAIN));
+	else
+		out[ISO_NFLAGS + 2] = strdup("POINTERFAIL");
+	/* patch the copy */
+	if (copy && json_patch_apply(NULL, patch, &copy, &perr) == 0)
+		out[ISO_NFLAGS + 3] = strdup(json_object_to_json_string_ext(copy, JSON_C_TO_STRING_PLAIN));
+	else
+		out[ISO_NFLAGS + 3] = strdup("PATCHFAIL");
+	if (parsed) json_object_put(parsed);
+	if (copy) json_object_put(copy);
+}
+
+static void *iso_worker(void *arg)
+{
+	long i = (long)arg;
+	unsigned long x = (iso_seed * 1000003UL + (unsigned long)i * 15485863UL + 3UL) & 0x7fffffffUL;
+	const char *fmt = ISO_FORMATS[(iso_seed + (unsigned long)i) % 6];
+	int budget = iso_size, it, k;
+	struct json_object *tree, *d, *patch;
+	char *ref[ISO_NTEXT], *got[ISO_NTEXT];
+	/* alone: format, tree, references */
+	pthread_mutex_lock(&iso_mu);
+	json_c_set_serialization_double_format(fmt, JSON_C_OPTION_THREAD);
+	tree = json_object_new_object();
+	d = json_object_new_array();
+	json_object_array_add(d, json_object_new_double(2.0));
+	json_object_array_add(d, json_object_new_double(3.0 + (double)(i % 2) * 0.5));
+	json_object_object_add(tree, "d", d);
+	json_object_object_add(tree, "w", json_object_new_double(1.0));
+	while (budget > 0) {
+		char kk[32];
+		snprintf(kk, sizeof kk, "r%d", budget);
+		json_object_object_add(tree, kk, iso_build(&x, &budget, 1));
+	}
+	patch = json_tokener_parse("[{\"op\":\"add\",\"path\":\"/zz\",\"value\":5.0},{\"op\":\"remove\",\"path\":\"/w\"},"
+	                           "{\"op\":\"copy\",\"from\":\"/d/0\",\"path\":\"/d/-\"},{\"op\":\"test\",\"path\":\"/zz\",\"value\":5.0}]");
+	iso_pass(tree, patch, ref);
+	pthread_mutex_unlock(&iso_mu);
+	pthread_barrier_wait(&bar);
+	for (it = 0; it < iso_iters; it++) {
+		iso_pass(tree, patch, got);
+		for (k = 0; k < ISO_NTEXT; k++) {
+			if (strcmp(got[k], ref[k]) != 0) iso_diff[i]++;
+			free(got[k]);
+		}
+	}
+	json_object_put(tree);
+	json_object_put(patch);
+	json_c_set_serialization_double_format(NULL, JSON_C_OPTION_THREAD);
+	for (k = 0; k < ISO_NTEXT; k++) {
+		if (strstr(ref[k], "FAIL")) iso_diff[i] += 1000000;     /* the reference pass itself must work */
+		free(ref[k]);
+	}
+	return NULL;
+}
+
+static void case_iso(char *args)
+{
+	int N;
+	long i, diff = 0;
+	pthread_t th[MAXT];
+	if (sscanf(args, "%d %d %d %lu", &N, &iso_iters, &iso_size, &iso_seed) != 4 || N < 1 || N > MAXT) { printf("BADLINE"); return; }
+	pthread_barrier_init(&bar, NULL, (unsigned)N);
+	for (i = 0; i < N; i++) pthread_create(&th[i], NULL, iso_worker, (void *)i);
+	for (i = 0; i < N; i++) pthread_join(th[i], NULL);
+	for (i = 0; i < N; i++) diff += iso_diff[i];
+	printf("iso threads=%d diff=%ld", N, diff);
+}
+
 /* ------------------------------------------------------------------ seed */
 static char *seed_key;
 static int seed_R;
@@ -547,6 +695,7 @@ void run_case(char *rest)
 		if (strncmp(rest, "rc ", 3) == 0) case_rc(rest + 3);
 		else if (strncmp(rest, "cont ", 5) == 0) case_cont(rest + 5);
 		else if (strncmp(rest, "last ", 5) == 0) case_last(rest + 5);
+		else if (strncmp(rest, "iso ", 4) == 0) case_iso(rest + 4);
 		else if (strncmp(rest, "sched", 5) == 0) printf("sched ok");   /* model-side schedule exploration: nothing to run here */
 		else if (strncmp(rest, "seed ", 5) == 0) case_seed(rest + 5);
 		else if (strncmp(rest, "seedx ", 6) == 0) case_seed(rest + 6);
